@@ -103,7 +103,7 @@ def generate_stream_source(rng, tier):
         p = list(range(nmsg))
         rng.shuffle(p)
         orders.append(p)
-    return {
+    scn = {
         "format": 1,
         "property": PROP,
         "source": "stream",
@@ -113,6 +113,14 @@ def generate_stream_source(rng, tier):
         "frontend": fe,
         "orders": orders,
     }
+    if rng.chance(0.15):
+        # the run that is collected is the second one on this Config object, after Config.add(more)
+        extra = wl.gen_config(rng, tbl, max_ctx=2, max_tests=2, window_layout="disjoint")
+        extra["carrier"], extra["build"], extra["share_document"], extra["layout"] = "dict", "direct", False, "contexts"
+        scn["add_after_run"] = extra
+        nmsg += sum(len(c["entries"]) for c in extra["contexts"])
+        scn["orders"] = [list(range(nmsg))] + [rng.sample(range(nmsg), nmsg) for _ in range(rng.randint(1, 2))]
+    return scn
 
 
 # --------------------------------------------------------------------------
@@ -157,10 +165,31 @@ def build_messages(scn):
 def stream_messages(scn):
     stream, closer = pl.make_stream(scn["frontend"], scn["table"])
     try:
-        return list(stream.run(pl.build_config(scn["config"])))
+        config = pl.build_config(scn["config"])
+        if scn.get("add_after_run"):
+            list(stream.run(config))                      # a first run, consumed
+            config.add(pl.build_config(scn["add_after_run"]))
+        return list(stream.run(config))
     finally:
         if closer:
             closer()
+
+
+def configured_keys(scn):
+    """(stream, module, test) keys the configuration asks for and that can run on this source
+    (reference: the direct call on the window rows succeeds for at least one context)."""
+    cfg = scn["config"]
+    if scn.get("add_after_run"):
+        cfg = dict(cfg, contexts=cfg["contexts"] + scn["add_after_run"]["contexts"])
+    arrays = pl.table_arrays(scn["table"])
+    exp = rp.annotate_expected(scn, arrays, cfg)
+    runnable, all_keys = set(), set()
+    for e in exp:
+        k = (e["entry"]["sid"], e["entry"]["module"], e["entry"]["test"])
+        all_keys.add(k)
+        if not e["fails"]:
+            runnable.add(k)
+    return runnable, all_keys
 
 
 def model_of(msgs, n):
@@ -220,6 +249,17 @@ def execute(scn):
         return {"violations": [], "stats": stats, "events": 0, "event_digest": "", "schedule_digest": "", "end_state": "src-failed:" + exc_signature(e), "nontrivial": False}
     model = model_of(msgs, n)
     before = [msg_digest(m) for m in msgs]
+    if scn["source"] == "stream" and not scn["table"].get("unsorted"):
+        # what is collected is what was configured: one result per configured (stream, module, test) that can run
+        runnable, all_keys = configured_keys(scn)
+        missing = sorted(runnable - set(model))
+        extra = sorted(set(model) - all_keys)
+        if missing:
+            V.append(violation(PROP, "a", "run", "configured-test-without-result", f"{missing}"))
+        if extra:
+            V.append(violation(PROP, "a", "run", "result-for-unconfigured-test", f"{extra}"))
+        if scn.get("add_after_run"):
+            bump("config_add_between_runs")
     if any(d["dup"] for d in model.values()):
         bump("overlap_skipped")  # not generated on purpose; stream windows are disjoint by construction
     masks = [np.asarray(m.subset_indexes) for m in msgs]
